@@ -367,7 +367,12 @@ impl SanitizerConfig {
                     let list_allowed = list_allow_attrs.is_some_and(|set| set.contains(attr_name));
                     let mode_allowed = mode_allow_attrs.is_some_and(|set| set.contains(attr_name));
 
-                    if !list_allowed && !mode_allowed {
+                    // The lists contain plain HTML attribute names, so an attribute in a namespace
+                    // (like `xlink:href` in foreign content) is never one of them, even if its
+                    // local name is.
+                    let is_namespaced = !attr.name.ns.is_empty();
+
+                    if is_namespaced || (!list_allowed && !mode_allowed) {
                         return Some(AttributeAction::Remove(attr.to_owned()));
                     }
                 }
